@@ -50,8 +50,9 @@ def sort_of(kind, bits):
 class Field(object):
     """schema entry for a heap attribute"""
 
-    def __init__(self, kind, opt=False, cls=None, ghost=False, elem=None):
+    def __init__(self, kind, opt=False, cls=None, ghost=False, elem=None, default=None):
         self.kind = kind  # int bool real bits str ref | map:<k>:<v> | set:<k>
+        self.default = default  # maps only: collections.defaultdict factory value ("0", "0.0"); None = plain dict
         self.opt = opt
         self.cls = cls
         self.ghost = ghost
@@ -70,10 +71,15 @@ def parse_type(s):
         opt = True
         s = s[4:].strip()
     cls = None
+    default = None
+    if " default=" in s:
+        s, _, default = s.partition(" default=")
+        s = s.strip()
+        default = default.strip()
     if s.startswith("ref:"):
         cls = s[4:]
         s = "ref"
-    return Field(s, opt=opt, cls=cls, ghost=ghost)
+    return Field(s, opt=opt, cls=cls, ghost=ghost, default=default)
 
 
 class State(object):
@@ -273,7 +279,12 @@ class Executor(object):
         v = z3.Select(arr, obj.t)
         kind = f.kind
         if kind.startswith("map:"):
-            return SV(kind, v, cls=f.cls, x=(obj, attr, key, z3.Select(na, obj.t)))
+            nn = None
+            if f.opt:
+                # the attribute may hold None instead of a dictionary: flag kept under <key>$none
+                fl, _ = self.heap_arrays(st, key + "$none", self.schema[key + "$none"])
+                nn = z3.Select(fl, obj.t)
+            return SV(kind, v, none=nn, cls=f.cls, x=(obj, attr, key, z3.Select(na, obj.t)))
         if kind.startswith("set:"):
             return SV(kind, v, cls=f.cls)
         if kind == "ref" and not f.opt:
@@ -287,6 +298,8 @@ class Executor(object):
         self.require_not_none(st, obj, "store .%s" % attr, lineno)
         key, f = self.field(obj.cls, attr)
         arr, na = self.heap_arrays(st, key, f)
+        if f.kind.startswith("map:"):
+            return self.set_map_attr(st, obj, attr, key, f, val, lineno)
         val = self.coerce(val, f, "store to .%s" % attr)
         arr2 = z3.Store(arr, obj.t, val.t)
         na2 = na
@@ -296,6 +309,36 @@ class Executor(object):
             # storing a possibly-None value into a non-optional field
             self.oblige(st, z3.Not(val.none), "type[.%s not None]" % attr, lineno, kind="type")
         st.heap[key] = (arr2, na2)
+
+    def set_map_attr(self, st, obj, attr, key, f, val, lineno):
+        """obj.attr = {} | None | <another modelled dictionary>"""
+        arr, dom = self.heap_arrays(st, key, f)
+        ks = f.kind.split(":")[1]
+        flag = None
+        if f.opt:
+            flag, _ = self.heap_arrays(st, key + "$none", self.schema[key + "$none"])
+        if val.kind == "none":
+            if flag is None:
+                self.oblige(st, z3.BoolVal(False), "type[.%s not None]" % attr, lineno, kind="type")
+                return
+            st.heap[key + "$none"] = (z3.Store(flag, obj.t, z3.BoolVal(True)), None)
+            return
+        if val.kind == "dict_lit":
+            if val.t:
+                raise Unsupported("non-empty dict literal stored to .%s" % attr)
+            st.heap[key] = (arr, z3.Store(dom, obj.t, z3.K(sort_of(ks, self.bits), z3.BoolVal(False))))
+        elif val.kind == f.kind and isinstance(val.x, tuple):
+            # aliasing of two dictionaries is outside the map model (each map lives in exactly one field)
+            raise Unsupported("dictionary aliasing: store of a modelled map to .%s" % attr)
+        else:
+            raise Unsupported("store of %s to the dictionary field .%s" % (val.kind, attr))
+        if flag is not None:
+            st.heap[key + "$none"] = (z3.Store(flag, obj.t, z3.BoolVal(False)), None)
+
+    def ev_Dict(self, e, st):
+        if e.keys:
+            raise Unsupported("non-empty dict literal at line %s" % getattr(e, "lineno", "?"))
+        return SV("dict_lit", ())
 
     def coerce(self, v, f, what):
         kind = f.kind
@@ -826,6 +869,17 @@ class Executor(object):
             raise Unsupported("map key of kind %s, expected %s" % (k.kind, ks))
         return k.t
 
+    def _map_default(self, m):
+        f = self.schema.get(m.x[2]) if isinstance(m.x, tuple) and len(m.x) >= 3 else None
+        if f is None or f.default is None:
+            return None
+        vs = m.kind.split(":")[2]
+        if vs == "real":
+            return z3.RealVal(f.default)
+        if vs == "int":
+            return z3.IntVal(int(float(f.default)))
+        raise Unsupported("defaultdict of %s" % vs)
+
     def _val_sv(self, m, t, none=None):
         vs = m.kind.split(":")[2]
         return SV(vs, t, none=none, cls=m.cls)
@@ -840,9 +894,17 @@ class Executor(object):
         base = self.ev(e.value, st)
         ln = getattr(e, "lineno", None)
         if base.kind.startswith("map:"):
+            self.require_not_none(st, base, "subscript of a dictionary attribute", ln)
             k = self.ev(e.slice, st)
             kt = self._key_term(base, k)
             present = z3.Select(base.x[3], kt)
+            dflt = self._map_default(base)
+            if dflt is not None:
+                # collections.defaultdict: reading a missing key inserts the factory value
+                val = z3.If(present, z3.Select(base.t, kt), dflt)
+                if not self.spec:
+                    self.map_store(st, base, z3.Store(base.t, kt, val), z3.Store(base.x[3], kt, True))
+                return self._val_sv(base, val)
             if not self.spec:
                 # a missing key raises KeyError: an exceptional exit (caught by an enclosing
                 # `except KeyError`, otherwise an unexpected raise of the function)
@@ -864,6 +926,7 @@ class Executor(object):
     def assign_subscript(self, st, target, v, ln):
         base = self.ev(target.value, st)
         if base.kind.startswith("map:"):
+            self.require_not_none(st, base, "item store into a dictionary attribute", ln)
             k = self.ev(target.slice, st)
             kt = self._key_term(base, k)
             vs = base.kind.split(":")[2]
@@ -900,9 +963,14 @@ class Executor(object):
         if name == "get":
             kt = self._key_term(m, args[0])
             present = z3.Select(m.x[3], kt)
-            if len(args) > 1 and args[1].kind != "none":
-                raise Unsupported("dict.get with a non-None default")
             vs = m.kind.split(":")[2]
+            if len(args) > 1 and args[1].kind != "none":
+                d = args[1]
+                if d.kind == "int" and vs == "real":
+                    d = SV("real", z3.ToReal(d.t))
+                if d.kind != vs or d.none is not None or vs == "ref":
+                    raise Unsupported("dict.get with a default of kind %s" % d.kind)
+                return self._val_sv(m, z3.If(present, z3.Select(m.t, kt), d.t))
             if vs == "ref":
                 return SV("ref", z3.If(present, z3.Select(m.t, kt), NONE), cls=m.cls)
             return self._val_sv(m, z3.Select(m.t, kt), none=z3.Not(present))
@@ -1085,6 +1153,8 @@ class Executor(object):
         st2.env[lam.args.args[0].arg] = SV("ref", r, cls=cls, x="nonnull")
         if self.old_state is not None:
             self.old_state.env[lam.args.args[0].arg] = SV("ref", r, cls=cls, x="nonnull")
+        for ps in getattr(self, "pre_states", []):
+            ps.env[lam.args.args[0].arg] = SV("ref", r, cls=cls, x="nonnull")
         body = self.truthy(self.ev(lam.body, st2))
         return SV("bool", z3.ForAll([r], z3.Implies(r != NONE, body)))
 
@@ -1096,6 +1166,8 @@ class Executor(object):
         st2.env[lam.args.args[0].arg] = SV("int", r)
         if self.old_state is not None:
             self.old_state.env[lam.args.args[0].arg] = SV("int", r)
+        for ps in getattr(self, "pre_states", []):
+            ps.env[lam.args.args[0].arg] = SV("int", r)
         body = self.truthy(self.ev(lam.body, st2))
         return SV("bool", z3.ForAll([r], body))
 
@@ -1223,11 +1295,17 @@ class Executor(object):
             raise Unsupported("inline depth")
         env = self.bind_params(fn, selfv, args, kw, st)
         saved_env = st.env
+        saved_heap, saved_pc = dict(st.heap), list(st.pc)
         st.env = env
         self.depth += 1
         try:
             body, dropped = frontend.strip_docstring(fn)
             normal, exits = self.exec_block(body, [st])
+        except Unsupported:
+            # the callee is outside the subset: leave the caller's state exactly as it was before the
+            # call (no half-executed effects, the caller's own variables back in scope)
+            st.env, st.heap, st.pc = saved_env, saved_heap, saved_pc
+            raise
         finally:
             self.depth -= 1
         # collect results: returns and normal fallthrough (None)
@@ -1346,6 +1424,13 @@ class Executor(object):
         for nm, ens in c.ensures_items():
             e = self.spec_eval(ens, post, old, res)
             st.assume(e)
+        if c.returns:
+            post2 = st.copy()
+            post2.env = env
+            res = self.spec_value(c.returns, post2)
+            if res.none is not None:
+                st.assume(z3.Not(res.none))
+                res = SV(res.kind, res.t, cls=res.cls, x=res.x)
         return res
 
     def havoc_loc(self, st, loc, env):
@@ -1383,6 +1468,9 @@ class Executor(object):
         key, f = self.field(obj.cls, attr)
         arr, na = self.heap_arrays(st, key, f)
         self.fresh_n += 1
+        if (key + "$none") in self.schema:
+            fl, _ = self.heap_arrays(st, key + "$none", self.schema[key + "$none"])
+            st.heap[key + "$none"] = (pick(z3.Store(fl, obj.t, z3.Const("hvnone_%s!%d" % (attr, self.fresh_n), B)), fl), None)
         fv = z3.Const("hv_%s!%d" % (attr, self.fresh_n), arr.sort().range())
         arr2 = pick(z3.Store(arr, obj.t, fv), arr)
         na2 = na
